@@ -257,6 +257,9 @@ class ext_makedirs:
     trusted = True
     types = {"_params": ["p", "exist_ok"], "_defaults": {"exist_ok": False}, "p": "str", "exist_ok": "bool"}
 
+    raises = {"FileExistsError": lambda p: fs_isfile(p)}
+    raises_exact = True
+
     def requires(p, exist_ok):
         return exist_ok
 
@@ -276,8 +279,8 @@ class ext_file_write:
     def ensures(path, text):
         return (len(WORLD.wpaths) == len(old.WORLD.wpaths) + 1 and WORLD.wpaths[-1] == path and
                 len(WORLD.wdata) == len(old.WORLD.wdata) + 1 and WORLD.wdata[-1] == text and
-                forall(0, len(old.WORLD.wpaths), lambda i: WORLD.wpaths[i] == old.WORLD.wpaths[i] and
-                       WORLD.wdata[i] == old.WORLD.wdata[i]))
+                forall(0, len(old.WORLD.wpaths), lambda i: WORLD.wpaths[i] == old.WORLD.wpaths[i]) and
+                forall(0, len(old.WORLD.wdata), lambda i: WORLD.wdata[i] == old.WORLD.wdata[i]))
     modifies = ["items(WORLD.wpaths)", "items(WORLD.wdata)"]
 
 
@@ -311,4 +314,83 @@ class ext_deepcopy:
                                            forall(0, len(x.rst.headers),
                                                   lambda i: result.rst.headers[i] == x.rst.headers[i]))) and
                 result.output.directory == x.output.directory)
+    modifies = []
+
+
+# ------------------------------------------------------------------------------------------------ T-OS: directory walk
+# os.walk(top, topdown=True) is modelled as the sequence of its steps (root, dirs, files): each step hands out two
+# fresh lists of pairwise different names.  WHICH directories later steps visit depends on what the consumer leaves in
+# `dirs` (top-down pruning); that dependency is part of the trusted description in DESIGN.md (C13/C15 composition), the
+# proofs only use the per-step facts below.  os.scandir(p) is a function of p (scan_len/scan_path/scan_isfile).
+EXTERNAL_CLASSES.update({"DirEntry": {"bases": []}})
+GHOST_FIELDS.update({"DirEntry.path": "str", "DirEntry.g_isfile": "bool"})
+
+
+@contract("ext:os.walk")
+class ext_os_walk:
+    """a lazy iterator: see ext:os.walk.next"""
+    trusted = True
+    types = {"_params": ["top", "topdown", "followlinks"], "_defaults": {"topdown": True, "followlinks": False},
+             "top": "str", "topdown": "bool", "followlinks": "bool", "return": "iter:os.walk"}
+
+    def requires(top, topdown, followlinks):
+        return topdown
+    modifies = []
+
+
+@contract("ext:os.walk.next")
+class ext_os_walk_next:
+    """step number _k of the walk: a directory path and two NEW lists of pairwise different names (its sub-directory
+    and file names in the order the operating system lists them); the first step is the top directory itself"""
+    trusted = True
+    types = {"_yields": ["root:str", "dirs:list[str]", "files:list[str]"]}
+
+    def ensures(top, root, dirs, files, _k):
+        return (_k != 0 or root == top) and distinct_strs(dirs) and distinct_strs(files)
+
+
+@contract("ext:os.scandir")
+class ext_os_scandir:
+    trusted = True
+    types = {"_params": ["p"], "p": "str"}
+
+    def returns(p):
+        return fs_scandir(p)
+    modifies = []
+
+
+@contract("ext:DirEntry.is_file")
+class ext_direntry_is_file:
+    trusted = True
+    types = {"_params": [], "self": "ref:DirEntry", "return": "bool"}
+
+    def returns(self):
+        return self.g_isfile
+    modifies = []
+
+
+@contract("ext:pathspec.PathSpec.from_lines")
+class ext_pathspec_from_lines:
+    """compiles the patterns (gitwildmatch); later changes of the list do not affect the compiled spec"""
+    trusted = True
+    types = {"_params": ["factory", "lines"], "factory": "str", "lines": "list[str]", "return": "ref:PathSpec"}
+    result_exact = True
+
+    def requires(factory, lines):
+        return factory == "pathspec.patterns.GitWildMatchPattern"
+
+    def ensures(factory, lines, result):
+        return (fresh(result) and fresh(result.g_patterns) and len(result.g_patterns) == len(lines) and
+                forall(0, len(lines), lambda i: result.g_patterns[i] == lines[i]) and
+                forall_str(lambda p: spec_excl(result, p) == excluded(lines, p)))
+    modifies = []
+
+
+@contract("ext:PathSpec.match_file")
+class ext_pathspec_match_file:
+    trusted = True
+    types = {"_params": ["p"], "self": "ref:PathSpec", "p": "str", "return": "bool"}
+
+    def returns(self, p):
+        return spec_excl(self, p)
     modifies = []
